@@ -67,7 +67,7 @@ func newFcRun(in *mInput, res *vh.Result, tr *traceWriter, shapeIdx int, rng *ra
 	}
 	r.fc = fc
 	r.o = newOracle(in.Cfg, r.clock)
-	tr.emit(map[string]any{"op": "Reset"})
+	tr.emit(map[string]any{"op": "Reset", "shape": r.sh.name, "path": id})
 	return r, nil
 }
 
